@@ -832,8 +832,8 @@ func main() {
 		n := 2200
 		if h.Thorough() {
 			// bounded by the size of the case file (about 8 kB per case) and the run time of the
-			// extracted model: about 170 MB and 7 minutes
-			n = 20000
+			// extracted model: about 150 MB and 6 minutes
+			n = 17000
 		}
 		for i := 0; i < n; i++ {
 			idx := h.Index()
